@@ -43,3 +43,16 @@ Definition k_check (c : fkey * bytes) : bool :=
   let '(k, b) := c in
   beqb (ser_key k) b
   && match deser_key cu_utf8 b with Some k' => fkey_eqb k k' | None => false end.
+
+(** a session case: [os1] ran on the graph, [os2] in an ephemeral session on top of it; the dump is the
+    graph's store, which the session must not change. *)
+Definition c_check_sess (c : schema * list op * list op * list result * list (list bytes * list fval)) : bool :=
+  let '(s, os1, os2, impl, dump) := c in
+  let '(rm, _) := c_run s (os1 ++ os2) in
+  let '(rs, _) := c_spec s (os1 ++ os2) in
+  let '(_, st1) := c_run s os1 in
+  let '(_, sp1) := c_spec s os1 in
+  list_eqb result_eqb rm impl
+  && list_eqb result_eqb rs impl
+  && flat_eqb (l_flat _ st1 (s_name s)) dump
+  && flat_eqb (map (fun e => (ser_keys (mk_keys (key_names s) (fst e)), snd e)) sp1) dump.
